@@ -222,6 +222,16 @@ impl PeerHandler {
         self.run().await;
     }
 
+    /// Receive the manager's broadcasts through the harness's gate (when gating is switched on).
+    #[cfg(feature = "verif")]
+    pub fn verif_gate_broadcast(&mut self) {
+        if let Some(rx) =
+            crate::verif::gate_broadcast(&self.connection.addr, self.broad_ch.resubscribe())
+        {
+            self.broad_ch = rx;
+        }
+    }
+
     /// Run the real connection task over an in-memory pipe instead of a socket.
     #[cfg(feature = "verif")]
     pub async fn verif_run(&mut self, pipe: crate::verif::MemPipe) {
